@@ -70,8 +70,12 @@ def save_model_with_external_data(
     """Save the model with external data. The model is unchanged after saving."""
 
     # TODO(#1835): Decide if we want to externalize large attributes as well
+    # Initializers of subgraphs (If / Loop bodies) are saved as well
     uninitialized_values = [
-        value.name for value in model.graph.initializers.values() if value.const_value is None
+        value.name
+        for graph in model.graphs()
+        for value in graph.initializers.values()
+        if value.const_value is None
     ]
     if uninitialized_values:
         raise ValueError(
